@@ -51,6 +51,8 @@ Cases ==
   \cup { [op |-> "wit", counts |-> cs, expect |-> GuardWit(cs)] : cs \in UNION { [1..k -> 0..8] : k \in 0..(IF Quick THEN 3 ELSE 4) } }
   \cup { [op |-> "mask", t |-> t, len |-> len, expect |-> GuardMask(t, len)] : t \in 1..6, len \in 0..8 }
   \cup { [op |-> "commit", t |-> t, b |-> b, expect |-> GuardCommit(t, b)] : t \in 1..6, b \in 0..8 }
+  \* a generator record edited after construction so that it holds more blinding bases than its declared degree: the bound stays the degree
+  \cup { [op |-> "commit_edited", t |-> t, extra |-> x, b |-> b, expect |-> GuardCommit(t, b)] : t \in 1..5, x \in 1..2, b \in 0..8 }
   \cup { [op |-> "deg_u8", v |-> v, expect |-> GuardDeg(v)] : v \in 0..255 }
   \cup { [op |-> "deg_usize", v |-> v, expect |-> GuardDeg(v)] : v \in (0..300) \cup Big }
   \cup { [op |-> "deg_usize_named", name |-> nm, expect |-> "err"] : nm \in {"u32max", "u32max_plus1", "u32max_plus2", "usizemax"} }
